@@ -53,6 +53,7 @@ func main() {
 	funcsFlag := flag.String("funcs", "", "comma-separated function keys to verify (debug)")
 	dump := flag.String("dump", "", "directory to dump all queries into (debug)")
 	listFlag := flag.Bool("list", false, "list obligations only")
+	verbose := flag.Bool("v", false, "print every obligation with its answer and time")
 	noCache := flag.Bool("nocache", false, "disable the result cache")
 	flag.Parse()
 	seed := int64(0)
@@ -157,6 +158,11 @@ func main() {
 	}
 	defer solver.close()
 	results := solver.solveAll(reports, match, 16)
+	if *verbose {
+		for _, r := range results {
+			fmt.Printf("  %-9s %-8s %6.2fs %s %v\n", r.Status, r.Answer, r.TimeS, r.Name, r.Answers)
+		}
+	}
 	if *dump != "" {
 		os.MkdirAll(*dump, 0o755)
 		for _, r := range results {
@@ -354,7 +360,7 @@ func report(v *Verifier, prop, tier string, seed int64, verifDir string, reports
 	return 0
 }
 
-const preambleTail = "(declare-fun parseI_val (Str) Int)\n"
+const preambleTail = "(declare-fun ringidx (Int Int Int) Int)\n"
 
 func round3(x float64) float64 { return float64(int64(x*1000+0.5)) / 1000 }
 
